@@ -37,7 +37,16 @@ def _callee_key(k):
 
 
 def is_preserving(k):
-    return _callee_key(k) in PRESERVING
+    key = _callee_key(k)
+    if key in PRESERVING:
+        return True
+    owner, name = key
+    # re-exported paths of the std Future / IntoFuture traits (futures_util::Future …)
+    if name == "poll" and owner and owner.endswith("Future"):
+        return True
+    if name == "into_future" and owner and owner.endswith("IntoFuture"):
+        return True
+    return False
 
 
 class Outcome:
@@ -227,7 +236,7 @@ def call_checked(body, bb, oc=None):
         return (True, "propagated into the return value")
     ok_reach = oc.success_reach()
     for sw in switch_on_locals(body, D):
-        edges = body.switch_edges(sw)
+        edges = [(v, tb) for v, tb in body.switch_edges(sw) if body.term(tb)["t"] != "unreachable"]
         dead = [tb for v, tb in edges if tb not in ok_reach]
         live = [tb for v, tb in edges if tb in ok_reach]
         if dead and live:
